@@ -64,6 +64,30 @@ theorem hit_of_mem {t : K} {s : Seg K} (h1 : min s.xold (s.xold + s.h) ≤ t) (h
   have := tol_pos (max s.xold (s.xold + s.h))
   constructor <;> linarith
 
+theorem hitExact_iff (t : K) (s : Seg K) :
+    hitExact t s = true ↔ min s.xold (s.xold + s.h) ≤ t ∧ t ≤ max s.xold (s.xold + s.h) := by
+  unfold hitExact inSegExact segLeft segRight
+  simp [ge_iff_le]
+
+theorem hit_of_hitExact {t : K} {s : Seg K} (h : hitExact t s = true) : hit t s = true := by
+  rw [hitExact_iff] at h; exact hit_of_mem h.1 h.2
+
+/-- what `find_segment` returns is a segment of the list that contains `t` within the slack -/
+theorem findSeg_sound (segs : List (Seg K)) (t : K) (s : Seg K) (h : findSeg segs t = some s) : s ∈ segs ∧ hit t s = true := by
+  unfold findSeg at h
+  split at h
+  · rename_i s' hf
+    injection h with h; subst h
+    exact ⟨List.mem_of_find?_eq_some hf, hit_of_hitExact (List.find?_some hf)⟩
+  · exact ⟨List.mem_of_find?_eq_some h, List.find?_some h⟩
+
+/-- it finds one whenever some segment contains `t` within the slack -/
+theorem findSeg_complete (segs : List (Seg K)) (t : K) (hex : ∃ a ∈ segs, hit t a = true) : ∃ s, findSeg segs t = some s := by
+  unfold findSeg
+  split
+  · exact ⟨_, rfl⟩
+  · exact Option.isSome_iff_exists.mp (List.find?_isSome.mpr hex)
+
 theorem endOf_ge (fwd : Bool) (x : K) (segs : List (Seg K)) (hc : Chain fwd x segs) :
     if fwd then x ≤ endOf x segs else endOf x segs ≤ x := by
   induction segs generalizing x with
